@@ -41,7 +41,7 @@ func (c05) Plan(tier string, seed int64) []core.Scenario {
 		out = append(out, s)
 	}
 	for ki, k := range ks {
-		for fk := 0; fk < 3; fk++ {
+		for fk := 0; fk < len(faultKinds); fk++ {
 			for b := 0; b < 3; b++ {
 				if k >= 40 && b > 0 {
 					continue // long outages only with the fastest backoff
@@ -57,12 +57,12 @@ func (c05) Plan(tier string, seed int64) []core.Scenario {
 			}
 		}
 	}
-	nr := 6
+	nr := 10
 	if tier == "thorough" {
-		nr = 36
+		nr = 60
 	}
 	for i := 0; i < nr; i++ {
-		add(core.Sc("noreconnect").WithN("fk", i%3).WithN("map", (i/3)%2).WithN("b", rng.Intn(3)))
+		add(core.Sc("noreconnect").WithN("fk", i%len(faultKinds)).WithN("map", (i/3)%2).WithN("b", rng.Intn(3)))
 	}
 	ni := 3
 	if tier == "thorough" {
